@@ -27,6 +27,7 @@ MAX_WALK = 300
 
 
 K_TINY = "tiny-cache:evicted-positive-stored-as-negative"
+K_ERRREPLY = "error-reply-cached-as-no-hashes"
 
 
 def classify(rec):
@@ -39,6 +40,24 @@ def classify(rec):
     false block, a leak, a wrong verdict with a cache of normal size -- has no
     key."""
     obs, adm = rec.get("observed") or {}, rec.get("admissible") or []
+    # K_ERRREPLY: a check said "not blocked" (no error, question in order)
+    # without having information about some candidates' prefixes -- no
+    # unexpired entry, not asked now -- and every such prefix was last asked in
+    # a lookup that was answered by an error reply (SERVFAIL / REFUSED /
+    # NOTIMP) and returned a verdict: the error reply was remembered as "no
+    # hashes under these prefixes".
+    tainted = set(rec.get("tainted") or [])
+    n = rec.get("n") or obs.get("n")
+    if (tainted and n and obs.get("ok") and not obs.get("e") and obs.get("v") is False
+            and (not obs.get("x") or not obs.get("q"))):
+        core = {h["p"] for k, h in enumerate(n["h"], 1) if k > max(n["cut"], n["opt"])}
+        chain = {h["p"] for h in n["h"]}
+        have = set(obs.get("q") or [])
+        # (an entry that is usable by the spec's book-keeping but tainted may
+        # have been evicted by the code and then replaced by the error reply)
+        need = core - (set(rec.get("valid_entries") or []) - tainted) - have
+        if need and need <= tainted and have <= chain:
+            return K_ERRREPLY
     if (rec.get("kind") == "trace" and 0 < (rec.get("cache_size") or 0) <= 256 and obs.get("ok")
             and obs.get("v") is False and adm and all(o["v"] for o in adm)):
         return K_TINY
@@ -67,6 +86,9 @@ class Graph:
             elif e["a"] == "fail":
                 ak = ("f", ".".join(e["n"]))
                 out = (tuple(sorted(e["q"])), "err")
+            elif e["a"] == "errreply":
+                ak = ("x", ".".join(e["n"]))
+                out = (tuple(sorted(e["q"])), "errreply")
             elif e["a"] == "tick":
                 ak, out = ("t",), None
             else:
@@ -86,7 +108,7 @@ class Graph:
         return self.ids[k]
 
 
-def plan_walks(g, rng, budget=None):
+def plan_walks(g, rng, budget=None, apart=(), apart_n=0):
     """Walks (from initial states) covering every (state, action) pair that is
     reachable along the printed edges.  Returns (walks, pairs_total, pairs_planned).
     A walk = dict(start=node, steps=[(akey, out, src, dst)])."""
@@ -100,10 +122,16 @@ def plan_walks(g, rng, budget=None):
                 parent[v] = (u, i)
                 dq.append(v)
     reach = list(parent)
-    unc = {u: list(range(len(g.adj[u]))) for u in reach}
+    # Actions of the kinds in `apart` are not woven into the covering walks
+    # (used when the tree under test is known to leave the spec right after
+    # them): apart_n of them get a walk of their own that ends with the action
+    # and one more check of the same name.
+    unc = {u: [i for i in range(len(g.adj[u])) if g.adj[u][i][0][0] not in apart] for u in reach}
     for u in reach:
         rng.shuffle(unc[u])
-    total = sum(len(x) for x in unc.values())
+    total = sum(len(g.adj[u]) for u in reach)
+    lone = [(u, i) for u in reach for i in range(len(g.adj[u])) if g.adj[u][i][0][0] in apart]
+    rng.shuffle(lone)
     todo = [u for u in reach if unc[u]]
     rng.shuffle(todo)
     walks, planned = [], 0
@@ -161,6 +189,16 @@ def plan_walks(g, rng, budget=None):
         walks.append({"start": start, "steps": steps})
         if budget is not None and sum(len(w["steps"]) for w in walks) >= budget:
             break
+    for (u, i) in lone[:apart_n]:
+        start, pth = path_to(u)
+        steps = [(g.adj[a][j][0], g.adj[a][j][2], a, g.adj[a][j][1]) for (a, j) in pth]
+        ak, v, out = g.adj[u][i]
+        steps.append((ak, out, u, v))
+        for (ak2, v2, out2) in g.adj[v]:
+            if ak2 == ("c", ak[1]):
+                steps.append((ak2, out2, v, v2))
+        planned += 1
+        walks.append({"start": start, "steps": steps})
     return walks, total, planned
 
 
@@ -174,7 +212,7 @@ BLANK_N = {"l": [], "cut": 0, "opt": 0, "h": []}
 
 def line(a, **kw):
     d = {"a": a, "t": 0, "db": [], "add": [], "del": [], "d": 0, "n": BLANK_N, "q": [], "v": False, "ok": True,
-         "f": False, "e": False}
+         "f": False, "x": False, "e": False}
     d.update(kw)
     return d
 
@@ -215,7 +253,7 @@ def walk_trace(universe, walks_in, by):
                 lines.append(line("db", add=[hid[st[1]]] if st[2] else [], **{"del": [] if st[2] else [hid[st[1]]]}))
             else:
                 lines.append(line("check", n=names[st[1]], q=r["q"], v=r["v"], ok=r["ok"],
-                                  f=bool(r.get("f")), e=bool(r.get("e"))))
+                                  f=bool(r.get("f")), x=bool(r.get("x")), e=bool(r.get("e"))))
             where.append((w["w"], i))
     return lines, where
 
@@ -258,10 +296,16 @@ def direction_a(ctx, cov, universe0):
     that digests the verdict of the trace spec for these lines."""
     # Calibration of the planning model (not of the oracle): does this tree
     # remember a negative answer for a prefix whose first entry has expired?
+    # And: does it remember an error reply as "no hashes"?  (If so, the walks
+    # leave the spec right after an error reply; such steps are then planned
+    # apart, at the end of walks of their own.)
     cal = {"w": 0, "db": [], "steps": [["c", "x.com"], ["t"], ["t"], ["c", "x.com"], ["c", "x.com"]]}
-    by0, _ = run_walks(ctx, universe0, [cal], "cal")
+    cal2 = {"w": 1, "db": ["x.com"], "steps": [["x", "x.com"], ["c", "x.com"]]}
+    by0, _ = run_walks(ctx, universe0, [cal, cal2], "cal")
     neg_again = not by0[0][-1]["q"]
+    err_neg = not by0[1][-1]["q"]
     cov["a_impl_remembers_negative_after_expiry"] = neg_again
+    cov["a_impl_remembers_error_reply_as_no_hashes"] = err_neg
     cfg = "HashPrefix.gen%s%s.cfg" % ("q" if ctx.quick else "", "fix" if neg_again else "")
     gen = ctx.tlc("HashPrefix", cfg, workers=4, timeout=1500)
     uni = [v["universe"] for v in gen["vectors"] if "universe" in v]
@@ -273,7 +317,9 @@ def direction_a(ctx, cov, universe0):
     del edges, gen
     rng = random.Random(ctx.seed)
     # quick: a seeded part of the pairs (the walker is the same); thorough: all
-    walks, pairs_total, pairs_planned = plan_walks(g, rng, budget=40000 if ctx.quick else None)
+    walks, pairs_total, pairs_planned = plan_walks(g, rng, budget=40000 if ctx.quick else None,
+                                                   apart=("x",) if err_neg else (),
+                                                   apart_n=60 if ctx.quick else 600)
     nsteps = sum(len(w["steps"]) for w in walks)
     ctx.log("graph: %d states, %d (state, action) pairs; %d walks, %d steps cover %d of them"
             % (len(g.states), pairs_total, len(walks), nsteps, pairs_planned))
@@ -290,10 +336,12 @@ def direction_a(ctx, cov, universe0):
                     kinds["asked_with_warm_cache"] += 1
             else:
                 kinds[ak[0]] += 1
+                if ak[0] == "x" and any(v2[0] > 0 for v2 in g.states[u]["c"].values()):
+                    kinds["error_reply_with_warm_cache"] += 1
                 if ak[0] == "f" and any(v2[0] > 0 for v2 in g.states[u]["c"].values()):
                     kinds["failed_with_warm_cache"] += 1
     for k in ("blocked", "clean", "asked", "not_asked", "blocked_from_cache", "asked_with_warm_cache", "t", "d",
-              "f", "failed_with_warm_cache"):
+              "f", "failed_with_warm_cache", "x", "error_reply_with_warm_cache"):
         if not kinds[k]:
             raise vlib.Inconclusive("vacuous: no edge of kind %s" % k)
 
@@ -304,7 +352,7 @@ def direction_a(ctx, cov, universe0):
     def digest(bad, skipped, diag):
         # How far the real code followed the predicted choices: the coverage
         # of (state, action) pairs is counted on the real path only.
-        agree = deviate = proj_same = proj_diff = failed = 0
+        agree = deviate = proj_same = proj_diff = failed = errreplies = 0
         covered = set()
         for wi, w in enumerate(walks):
             for i, ((ak, out, u, v), r) in enumerate(zip(w["steps"], by[wi])):
@@ -313,6 +361,17 @@ def direction_a(ctx, cov, universe0):
                         deviate += 1
                         break
                     failed += 1
+                elif ak[0] == "x":
+                    # predicted: the question of the model; an error unless the
+                    # tree remembers error replies (then "not blocked")
+                    if (tuple(sorted(r["q"])) != out[0] or not r["ok"]
+                            or bool(r.get("e")) == err_neg or (err_neg and r["v"])):
+                        deviate += 1
+                        break
+                    errreplies += 1
+                    if err_neg:
+                        covered.add((u, ak))
+                        break       # the next check is expected to leave the spec
                 elif ak[0] == "c":
                     if (tuple(sorted(r["q"])), bool(r["v"])) != out or not r["ok"] or r.get("e"):
                         deviate += 1
@@ -330,31 +389,48 @@ def direction_a(ctx, cov, universe0):
                     else:
                         proj_diff += 1
                 covered.add((u, ak))
-        # Isolation: re-run a rejected walk alone, up to the rejected step.
+        # Isolation: re-run a rejected walk alone, up to the rejected step.  The
+        # rejected lines are grouped by what they look like and a few of each
+        # group are re-executed, so that lines matching a known finding cannot
+        # hide a different one.
         reproduced = 0
-        for ln in bad[:5]:
+
+        ntab = name_table(universe)
+
+        def record(w1, obs, d, key):
+            return {"kind": "walk", "universe": universe, "walk": w1, "seed": ctx.seed, "observed": obs,
+                    "n": ntab.get(key),
+                    "admissible": d.get("admissible"), "valid_entries": d.get("valid"),
+                    "tainted": d.get("tainted"), "names": summ.get("names")}
+
+        groups = collections.defaultdict(list)
+        for ln in bad:
             wid, si = where[ln - 1]
-            w1 = dict(walks_in[wid], steps=walks_in[wid]["steps"][:si + 1], w=0)
-            by1, _ = run_walks(ctx, universe, [w1], "a_iso")
-            lines1, _ = walk_trace(universe, [w1], by1)
-            bad1, _, diag1 = validate(ctx, lines1, "a_iso")
-            obs = by1[0][-1]
-            if bad1 and bad1[-1] == len(lines1):
-                reproduced += 1
-                rec = {"kind": "walk", "universe": universe, "walk": w1, "seed": ctx.seed, "observed": obs,
-                       "admissible": diag1.get(len(lines1), {}).get("admissible"),
-                       "valid_entries": diag1.get(len(lines1), {}).get("valid"), "names": summ.get("names")}
-                ctx.disagreement(classify(rec), rec,
-                                 "Check(%s)%s: question %s verdict %s error=%s ok=%s (%s) not admitted by the spec "
-                                 "after %d steps" % (obs.get("host"), " while the service fails" if obs.get("f") else "",
-                                                     obs["q"], obs["v"], obs.get("e"), obs["ok"], obs.get("why", ""), si))
-            else:
-                ctx.notes.append("walk %d step %d rejected once, not reproduced in isolation" % (wid, si))
+            groups[classify(record(None, by[wid][si], diag.get(ln, {}), walks_in[wid]["steps"][si][1]))].append((wid, si))
+        for key, members in sorted(groups.items(), key=lambda kv: str(kv[0])):
+            for (wid, si) in members[:2 if key else 5]:
+                w1 = dict(walks_in[wid], steps=walks_in[wid]["steps"][:si + 1], w=0)
+                by1, _ = run_walks(ctx, universe, [w1], "a_iso")
+                lines1, _ = walk_trace(universe, [w1], by1)
+                bad1, _, diag1 = validate(ctx, lines1, "a_iso")
+                obs = by1[0][-1]
+                if bad1 and bad1[-1] == len(lines1):
+                    reproduced += 1
+                    rec = record(w1, obs, diag1.get(len(lines1), {}), w1["steps"][-1][1])
+                    ctx.disagreement(classify(rec), rec,
+                                     "Check(%s)%s: question %s verdict %s error=%s ok=%s (%s) not admitted by the spec "
+                                     "after %d steps" % (obs.get("host"),
+                                                         " while the service fails" if obs.get("f") else "",
+                                                         obs["q"], obs["v"], obs.get("e"), obs["ok"],
+                                                         obs.get("why", ""), si))
+                else:
+                    ctx.notes.append("walk %d step %d rejected once, not reproduced in isolation" % (wid, si))
         cov.update({
             "a_states": len(g.states), "a_pairs": pairs_total, "a_pairs_planned": pairs_planned,
             "a_pairs_covered_on_real_path": len(covered),
             "a_walks": len(walks), "a_steps": nsteps, "a_lines_rejected": len(bad), "a_lines_skipped": skipped,
             "a_rejected_reproduced": reproduced,
+            "a_error_replies_as_predicted": errreplies, "a_error_replies_served": summ.get("error_replies"),
             "a_failed_lookups_as_predicted": failed, "a_failed_lookups_served": summ.get("failed_lookups"),
             "a_checks_as_predicted": agree, "a_walks_leaving_prediction": deviate,
             "a_cache_projection_equal": proj_same, "a_cache_projection_different": proj_diff,
@@ -395,8 +471,9 @@ def direction_b(ctx, cov, pkg, test, tag, synctest, vacuous):
             "private_or_unlisted_suffix": sum(1 for r in checks if r["n"]["opt"] > 0),
             "failed_lookups": sum(1 for r in checks if r.get("f") and r.get("e")),
             "service_failing_but_answered_from_cache": sum(1 for r in checks if r.get("f") and not r.get("e")),
+            "error_replies": sum(1 for r in checks if r.get("x") and r["q"]),
         }
-        for k in ("checks", "blocked", "answered_from_cache", "asked", "failed_lookups"):
+        for k in ("checks", "blocked", "answered_from_cache", "asked", "failed_lookups", "error_replies"):
             if not stats[k]:
                 vacuous.append("vacuous %s trace: no %s" % (tag, k))
         reproduced = 0
@@ -406,7 +483,8 @@ def direction_b(ctx, cov, pkg, test, tag, synctest, vacuous):
         def record(w, step, last, d):
             return {"kind": "trace", "test": test, "pkg": pkg, "synctest": synctest, "seed": ctx.seed,
                     "tier": ctx.tier, "walk": w, "steps": step + 1, "cache_size": sizes.get(w, 0), "observed": last,
-                    "admissible": d.get("admissible"), "valid_entries": d.get("valid")}
+                    "admissible": d.get("admissible"), "valid_entries": d.get("valid"),
+                    "tainted": d.get("tainted")}
 
         # Rejected lines are grouped by what they look like; a few of each
         # group are re-executed in isolation (a few attempts each: the order
@@ -459,7 +537,7 @@ def run(ctx):
     for m in re.finditer(r"^<(\w+) line \d+, col \d+ to line \d+, col \d+ of module HashPrefix[^>]*>: (\d+):(\d+)$",
                          mc["out"], re.M):
         taken[m.group(1)] += int(m.group(3))
-    for act in ("Init", "Check", "LookupFails", "Tick", "DbChange"):
+    for act in ("Init", "Check", "LookupFails", "ErrorReply", "Tick", "DbChange"):
         if not taken[act]:
             raise vlib.Inconclusive("vacuous: action %s never taken in %s" % (act, mc["cfg"]))
     cov = {"mc_states": mc["distinct"], "mc_transitions": mc["generated"], "mc_actions_taken": dict(taken)}
@@ -492,7 +570,7 @@ def run(ctx):
         keys.append(wid)
     bad_walks = {keys[bl - 1] for bl in bad}
     k = next((i for i, ln in enumerate(every)
-              if ln["a"] == "check" and not ln["f"] and ln["n"]["opt"] == 0 and keys[i] not in bad_walks), None)
+              if ln["a"] == "check" and not ln["f"] and not ln["x"] and ln["n"]["opt"] == 0 and keys[i] not in bad_walks), None)
     demo = None
     if k is not None:
         start = max(i for i in range(k + 1) if every[i]["a"] == "reset")
@@ -550,5 +628,5 @@ def replay(ctx, path):
     bad, _, diag = validate(ctx, lines, "replay")
     rejected = bool(bad) and bad[-1] == len(lines)
     print(json.dumps({"expected_one_of": diag.get(len(lines), {}).get("admissible") if rejected else "admissible",
-                      "observed": {k: last.get(k) for k in ("host", "q", "v", "ok", "f", "e", "why", "qn")}}, indent=1))
+                      "observed": {k: last.get(k) for k in ("host", "q", "v", "ok", "f", "x", "e", "why", "qn")}}, indent=1))
     return 1 if rejected else 0
